@@ -154,8 +154,9 @@ def _check_results(ctx, stats, reg, df, notional, rp, info, region_new_level):
             ctx.prove("C05.coarse_payoff_is_zero_at_level_0", all((not V.is_sym(c)) and c == 0.0 for f, c in S), info=info, replay=rp)
 
 
-def h_adaptive(ctx, il, n0, lm, bound):
+def h_adaptive(ctx, il, n0, lm, bound, passes=MAX_PASSES):
     eng, prod, reg, crit, df, notional = make_engine(ctx, il, n0, lm, bound)
+    crit.max_calls = passes
     eng.configuration.convergence_criteria.compute_mc_paths = _limited(crit)
     rmse = ctx.real("rmse")
     ctx.assume(rmse > 0)
@@ -267,10 +268,11 @@ def concrete_validation():
 def harnesses(tier):
     q = tier == "quick"
     hs = [Harness("concrete", concrete_validation, concrete=True)]
-    cfgs = [(0, 1, 1, 2), (1, 1, 1, 2), (0, 2, 1, 2), (1, 1, 2, 1)] if q else \
-        [(0, 1, 1, 3), (1, 1, 2, 3), (0, 2, 1, 3), (1, 2, 2, 3), (2, 1, 3, 2), (2, 2, 2, 3), (0, 1, 2, 3), (1, 3, 2, 3)]
-    for il, n0, lm, b in cfgs:
-        hs.append(Harness(f"adaptive.L{il}.N{n0}.M{lm}.B{b}", h_adaptive, {"il": il, "n0": n0, "lm": lm, "bound": b}, max_paths=30000 if not q else 6000, batch=10))
+    # (initial level, N0, maximum level, largest sample-size answer, passes)
+    cfgs = [(0, 1, 1, 2, 4), (1, 1, 1, 2, 4), (0, 2, 1, 2, 4), (1, 1, 2, 1, 4)] if q else \
+        [(0, 1, 1, 3, 4), (0, 2, 1, 3, 4), (1, 1, 1, 3, 4), (2, 2, 2, 2, 4), (1, 1, 2, 2, 3), (1, 2, 2, 3, 2), (2, 1, 3, 1, 4), (0, 1, 2, 2, 3), (1, 3, 2, 2, 3), (0, 3, 0, 4, 5)]
+    for il, n0, lm, b, ps in cfgs:
+        hs.append(Harness(f"adaptive.L{il}.N{n0}.M{lm}.B{b}.P{ps}", h_adaptive, {"il": il, "n0": n0, "lm": lm, "bound": b, "passes": ps}, max_paths=120000 if not q else 6000, batch=10))
     for il, n0, lm in ([(0, 2, 1), (1, 1, 2), (2, 2, 1), (0, 1, 2), (1, 2, 4)] if q else [(0, 2, 1), (1, 1, 2), (2, 2, 1), (0, 1, 2), (1, 2, 4), (0, 3, 3), (2, 1, 0), (3, 2, 2), (0, 2, 5)]):
         hs.append(Harness(f"fixed.L{il}.N{n0}.M{lm}", h_fixed, {"il": il, "n0": n0, "lm": lm}, max_paths=2000))
     for il, n0, b in ([(0, 100, 1)] if q else [(0, 100, 2), (1, 100, 2), (0, 200, 3)]):
@@ -287,7 +289,8 @@ EXPECT = ["C05.price_is_sum_of_level_means_over_simulated_samples", "C05.reporte
 def main(tier):
     bounds = {"quick": f"initial_level in {{0,1}}, N0 in {{1,2}}, level_max <= initial+1, sample-size answers in [0,2], <= {MAX_PASSES} passes; fixed-level variant with up to 3 "
                        "levels created at once; one level of 100 samples with answers 100..101 (1% rule)",
-              "thorough": f"initial_level <= 2, N0 <= 3, level_max <= initial+1 or 2, answers in [0,3], <= {MAX_PASSES} passes; fixed-level variant with maximum_level below/above initial_level",
+              "thorough": "initial_level <= 2, N0 <= 3, level_max <= initial+2, per configuration (answers bound, passes) from ([0,3], 4) on one or two levels down to "
+                          "([0,1], 4) / ([0,2], 3) / ([0,3], 2) on three and four levels; levels of 100/200 samples with answers up to +3; fixed-level variant with maximum_level below/above initial_level",
               "outside": "control variates and payoff dimension > 1 in the multilevel engine; worker pools (C08); regression of the convergence rates (lstsq in C)"}
     return run_check(PID, tier, harnesses(tier), expect=EXPECT, bounds=bounds,
                      assumptions=COMMON_ASSUMPTIONS + [
